@@ -405,6 +405,9 @@ def run(facts_path):
         except AnalysisIncomplete as e:
             notes.append(f"{name}: the interpreter could not analyse the function ({str(e)[:200]}); clause undecided")
             out['exits'][name] = 0
+        except Exception as e:      # another shape than this driver expects: nothing decided, nothing claimed
+            notes.append(f"{name}: the stage could not drive the function ({type(e).__name__}: {str(e)[:160]}); clause undecided")
+            out['exits'][name] = 0
     seen = set()
     for prop, clause, ok, why in recs:
         key = (prop, clause, ok)          # one record per clause and verdict (the runs for different max_len repeat the shorter counts)
